@@ -64,7 +64,7 @@ def run(tier, replay=None):
 
     # ---- (1) model <-> arena.c on operation sequences
     if lres.get("driver_ok") and not replay:
-        f, cov, u = ac.ops_tie(chk, b, 400 if tier == "quick" else 6000, PID + "/ops")
+        f, cov, u = ac.ops_tie(chk, b, 400 if tier == "quick" else 6000, PID + "/ops", loads="none")
         found |= f
         ubs |= u
         chk.cov.update(cov)
@@ -83,7 +83,7 @@ def run(tier, replay=None):
                 cid = "g%d.%s" % (i, name)
                 lines.append(ac.case_line(cid, c, **kw))
                 meta[cid] = (i, name)
-    out, rc, err = core.run_parallel([b["h_grow"]], lines, env=ac.scratch_env(PID))
+    out, rc, err = core.run_parallel(ac.capped(b["h_grow"]), lines, env=ac.scratch_env(PID))
     if rc != 0:
         chk.violation("harness_crash.json", {"kind": "harness-failed", "rc": rc, "stderr": err, "harness": "h_grow"})
         found = True
